@@ -626,9 +626,13 @@ class Attribute(_StringMixin):
         attributes = self._attributes
         current = self.namespace, self.local_name
         assert attributes is not None
-        attributes[(namespace, name)] = self.value
+        if attributes._etree_key(current) != attributes._etree_key((namespace, name)):
+            attributes[(namespace, name)] = self.value
+            del attributes[current]
+        else:
+            # both names address the same entry
+            attributes._attributes.pop(current, None)
         self._qualified_name = (namespace, name)
-        del attributes[current]
         self._attributes = attributes
         attributes._attributes[(namespace, name)] = self
 
